@@ -6,3 +6,5 @@
 
 #[cfg(kani)]
 mod u2f_cex;
+#[cfg(kani)]
+mod status;
